@@ -191,9 +191,33 @@ impl Emu {
             region_slice_mut(&mut self.cpu.bus, idx).copy_from_slice(&bytes);
         }
         self.cpu.bus.io_port_in = [0; 11];
+        for p in 0..11u32 {
+            // internal port latches back to 0 through the public write path
+            let _ = self.cpu.bus.write(0xffffd0 + p, 0xff);
+            let _ = self.cpu.bus.write(0xffffd0 + p, 0);
+            raw_set(&mut self.cpu.bus, 0xffffd0 + p, 0);
+        }
         let _ = self.cpu.bus.write(0xffff80, 0);
+        hooks::reset_modules(&mut self.cpu);
+        self.drain_pending();
         let _ = self.drain_msgs();
         self.dirty_hidden = false;
+    }
+
+    /// accept (and thereby discard) every pending interrupt request
+    pub fn drain_pending(&mut self) {
+        let mut guard = 0;
+        let sp = 0xffe800u32;
+        while hooks::pending_interrupts(&self.cpu) > 0 && guard < 1_000_000 {
+            self.set_ccr(0);
+            self.cpu.er[7] = sp;
+            let cpu = &mut self.cpu;
+            let _ = guarded(|| hooks::try_interrupt(cpu));
+            guard += 1;
+        }
+        for i in 0..4 {
+            raw_set(&mut self.cpu.bus, sp - 4 + i, baseline_byte(sp - 4 + i));
+        }
     }
 
     pub fn drain_msgs(&mut self) -> Vec<String> {
